@@ -254,7 +254,7 @@ def run(ctx: core.Ctx) -> int:
     for c in c06.make_cases(inv, rnd, 1, len(cases) + 1, ctx.seed):
         cases.append({"tid": len(cases) + 1, "p": c["p"], "label": c["label"], "seed": c["seed"],
                       "concluded": bool(len(cases) % 2), "mp": False, "to_file": False})
-    events = core.pmap(run_case, cases, chunksize=8)
+    events = ctx.pmap(run_case, cases, chunksize=8)
     for ev in events[:: max(1, len(events) // 3)][:3]:
         ctx.samples.append({"case": json.loads(ev["label"]), "concluded": ev["concluded"],
                             "sections": [{k: s[k] for k in ("name", "concluded", "infos", "cop")} for s in ev["doc"]["files"][:3]]})
@@ -279,4 +279,4 @@ def run(ctx: core.Ctx) -> int:
 
 
 def replay(ctx: core.Ctx, path: str) -> int:
-    raise core.MachineryError("replay for C18 re-runs the case list; use the check with the same VERIF_SEED")
+    return core.generic_replay(ctx, path)
